@@ -23,7 +23,7 @@ _XSD = """<xs:schema xmlns:xs="http://www.w3.org/2001/XMLSchema">
  <xs:element name="r"><xs:complexType><xs:sequence>
    <xs:element name="i" minOccurs="0" maxOccurs="unbounded"><xs:complexType><xs:sequence>
        <xs:element name="c" type="xs:int" minOccurs="0" maxOccurs="2"/></xs:sequence>
-     <xs:attribute name="k" type="xs:int"/><xs:attribute name="ref" type="xs:int"/></xs:complexType></xs:element>
+     <xs:attribute name="k" type="xs:int"/><xs:attribute name="ref" type="xs:int"/><xs:attribute name="q" type="xs:QName"/></xs:complexType></xs:element>
  </xs:sequence></xs:complexType>
  <xs:key name="K"><xs:selector xpath="i"/><xs:field xpath="@k"/></xs:key>
  <xs:keyref name="R" refer="K"><xs:selector xpath="i"/><xs:field xpath="@ref"/></xs:keyref>
@@ -34,6 +34,7 @@ KS = [None, "1", "2"]
 REFS = [None, "1", "3"]
 CH = [[], ["1"], ["1", "x"], ["x", "2"]]
 NSD = [False, True]
+PADS = [0, 17000, 70000]          # characters of comment between the first and the second item (pushes the rest past the parser's read-ahead block)
 
 
 def configure(cfg):
@@ -89,9 +90,23 @@ def region_lazy_decode_identities(**kw):
     return any(r is not None and r not in keys for k, r, ch in items)
 
 
+def region_lazy_decode_chunk_xmlns(**kw):
+    """known finding C06-lazy-decode-chunk-xmlns: a streamed item declares a namespace itself (the chunk is decoded at
+    level 0, where declarations of non-global elements are dropped from the data)"""
+    kw = _with_fixed(kw)
+    return any(kw.get("q%d" % j) == 1 for j in range(CFG["n"]))
+
+
+def region_lazy_path_position_readahead(**kw):
+    """known finding C06-lazy-path-position-readahead: an error is located at the first item while the second item lies
+    beyond the parser's read-ahead (the positional predicate [1] is omitted because the sibling is not in the tree yet)"""
+    kw = _with_fixed(kw)
+    return kw.get("pad", 0) >= 1 and kw.get("k0") == 0
+
+
 def pre_doc(fn, **kw):
     for k, v in kw.items():
-        lim = {"k": len(KS), "r": len(REFS), "c": len(CH), "x": 3, "z": 2}[k[0]]
+        lim = {"k": len(KS), "r": len(REFS), "c": len(CH), "x": 3, "z": 2, "q": 3, "p": len(PADS)}[k[0]]
         lim = min(lim, CFG.get("lims", {}).get(k, lim))
         if not (0 <= v < lim):
             return False
@@ -117,10 +132,17 @@ def _doc(kw):
             attrs += ' ref="%s"' % r
         if ns:
             attrs += ' xmlns:q="urn:q%d" xmlns:q2="urn:qq%d"' % (j, j)
+        qn = pick(kw["q%d" % j], 3) if ("q%d" % j) in kw else 0          # 0 no QName attribute, 1 declared on the item itself, 2 undeclared prefix
+        if qn == 1:
+            attrs += ' xmlns:u="urn:u" q="u:v"'
+        elif qn == 2:
+            attrs += ' q="u:v"'
         kids = ['<c>%s</c>' % t for t in ch]
         if ns == 2 and kids:
             kids[-1] = kids[-1].replace('<c>', '<c xmlns:w="urn:w%d">' % j, 1)
         items.append('<i%s>%s</i>' % (attrs, ''.join(kids)))
+        if j == 0 and "pad" in kw:
+            items.append('<!--%s-->' % ('.' * PADS[pick(kw["pad"], len(PADS))]))
     return '<r xmlns:p="urn:p">%s</r>' % ''.join(items)
 
 
@@ -251,6 +273,19 @@ def obligations(tier, seed):
                                        "fixed": {} if k0 is None else {"k0": k0}},
                             "timeout": 900 if quick else 3000, "twin_timeout": 40,
                             "bound": "%d items: key from %r, keyref from %r, children %r" % (n, KS, REFS, CH)})
+        if n:
+            qargs = []
+            for j in range(n):
+                qargs += [["q%d" % j, "int"], ["c%d" % j, "int"]]
+            for fn, label in (("h_lazy", "errors"), ("h_lazy_decode", "decode")):
+                out.append({"name": "%s-qname/lazy1/n%d" % (label, n), "fn": fn, "pre": "pre_doc", "args": qargs,
+                            "config": {"n": n, "lazy": 1, "thin": True, "lims": {"c0": 2, "c1": 2}}, "timeout": 600 if quick else 2000, "twin_timeout": 40,
+                            "bound": "%d items, each with a QName attribute whose prefix is declared on the item itself / not declared / absent" % n})
+        if n == 2:
+            out.append({"name": "errors-chunked/lazy1/n2", "fn": "h_lazy", "pre": "pre_doc",
+                        "args": [["pad", "int"], ["k0", "int"], ["k1", "int"], ["r1", "int"]],
+                        "config": {"n": 2, "lazy": 1, "thin": True, "fixed": {"c0": 0, "c1": 0}}, "timeout": 600 if quick else 2000, "twin_timeout": 40,
+                        "bound": "2 items separated by a comment of %r characters (the second item lies beyond the parser's first read block), keys %r, keyref %r" % (PADS, KS, REFS)})
         args2 = [] if n else [["z", "int"]]
         for j in range(n):
             args2 += [["c%d" % j, "int"], ["x%d" % j, "int"]]
